@@ -490,6 +490,10 @@ empty @is_you(int n) { int[] a = [id(n), id(n + 1), [id(2), 4][1]]; write(a[0]);
 bool odd(int x, bool flip) { return (x %% 2 == 1) != flip; }
 empty @is_you(int n, int v) { bool b[n]; for (int i = 0; i < n; i += 1) { b[i] = false; } b[v] = true; for (int j = 0; j < n; j += 1) { write(b[j] is int); } put('!'); write(odd(v, false)); }''',
      [[16, 15], [8, 0], [1, 0], [9, 8]]),
+    ('byte_deepest_inline', '''empty @is_you(int n, int v) { bool b[n]; for (int i = 0; i < n; i += 1) { b[i] = false; } b[v] = true;
+  for (int j = 0; j < n; j += 1) { if (b[j]) { write('1'); } else { write('0'); } } }''', [[16, 15], [8, 7], [9, 0], [17, 16], [24, 3], [1, 0]]),
+    ('byte_local_deepest', '''empty @is_you(int n, byte c) { byte pad[n]; for (int i = 0; i < n; i += 1) { pad[i] = c; } { int k = n; byte last = c; last += 1; write(last); write(pad); if (k > 1) { write(pad[1]); } } }''',
+     [[1, 65], [2, 65], [3, 66], [4, 67]]),
     ('indices', '''empty @is_you(int i, int n) { int[] a = [1, 2, 3]; write('a'); bool b[n]; write('b'); if (n > 0) { b[0] = true; } write(a[i]); a[i] += 1; write(a[i]); }''',
      [[0, 2], [2, 0], [3, 1], [-1, 1], [0, -1], [0, -8], [32767, 1], [0, 32767]]),
 ]
